@@ -41,6 +41,60 @@ pub fn trie(pairs: &[(Vec<u16>, i32)]) -> Dfa {
     Dfa { prod0: prod[0], trans, k }
 }
 
+/// Merge states with the same behaviour (same production, same successors), keeping the smallest id of each class
+/// (as parol's minimisation does): this creates edges from higher-numbered to lower-numbered states.
+pub fn merged(d: &Dfa) -> Dfa {
+    use std::collections::BTreeMap;
+    let n = d.trans.iter().map(|t| t.0.max(t.2)).max().unwrap_or(0) + 1;
+    let mut prod = vec![-1i32; n];
+    prod[0] = d.prod0;
+    for t in &d.trans { prod[t.2] = t.3; }
+    let mut rep: Vec<usize> = (0..n).collect();
+    loop {
+        let mut sig: BTreeMap<(i32, Vec<(u16, usize)>), usize> = BTreeMap::new();
+        let mut changed = false;
+        for s in 1..n {
+            if rep[s] != s { continue; }
+            let mut out: Vec<(u16, usize)> = d.trans.iter().filter(|t| t.0 == s).map(|t| (t.1, rep[t.2])).collect();
+            out.sort();
+            match sig.get(&(prod[s], out.clone())) {
+                Some(r) => { rep[s] = *r; changed = true; }
+                None => { sig.insert((prod[s], out), s); }
+            }
+        }
+        for s in 0..n { let mut r = rep[s]; while rep[r] != r { r = rep[r]; } rep[s] = r; }
+        if !changed { break; }
+    }
+    let mut trans: Vec<(usize, u16, usize, i32)> = d.trans.iter().filter(|t| rep[t.0] == t.0).map(|t| (t.0, t.1, rep[t.2], t.3)).collect();
+    trans.sort();
+    trans.dedup();
+    Dfa { prod0: d.prod0, trans, k: d.k }
+}
+
+/// Random renumbering of the states other than 0; transitions stay sorted by (from state, terminal).
+pub fn renumbered(rng: &mut Rng, d: &Dfa) -> Dfa {
+    let n = d.trans.iter().map(|t| t.0.max(t.2)).max().unwrap_or(0) + 1;
+    let mut perm: Vec<usize> = (0..n).collect();
+    for i in (2..n).rev() { let j = 1 + rng.below(i); perm.swap(i, j); }
+    let mut trans: Vec<(usize, u16, usize, i32)> = d.trans.iter().map(|t| (perm[t.0], t.1, perm[t.2], t.3)).collect();
+    trans.sort();
+    Dfa { prod0: d.prod0, trans, k: d.k }
+}
+
+/// A random walk through the automaton: a lookahead string it knows (possibly a proper prefix of one).
+fn walk(rng: &mut Rng, d: &Dfa) -> Vec<u16> {
+    let mut st = 0usize;
+    let mut out = vec![];
+    for _ in 0..d.k {
+        let c: Vec<&(usize, u16, usize, i32)> = d.trans.iter().filter(|t| t.0 == st).collect();
+        if c.is_empty() { break; }
+        let t = c[rng.below(c.len())];
+        out.push(t.1);
+        st = t.2;
+    }
+    out
+}
+
 pub fn show_dfa(d: &Dfa) -> String {
     format!(
         "({} {} {})",
@@ -119,11 +173,29 @@ pub fn run(a: &Args) {
         println!("{}", eval_case(&d, &[5, 28], 0));
         println!("{}", eval_case(&d, &[5, 28, 7], 0));
     }
+    // automata parol really generates (compiled and minimised), with their own lookahead strings and mutants
+    for i in 0..(a.n / 20).max(2) {
+        let g = crate::c07::ll_grammar(&mut rng, i);
+        if let Ok(b) = crate::c07::build_ll(&g, if i % 3 == 0 { 4 } else { 3 }) {
+            for au in &b.export.lookahead_automata {
+                if au.transitions.is_empty() { continue; }
+                let d = Dfa { prod0: au.prod0, k: au.k, trans: au.transitions.iter().map(|t| (t.from_state, t.term, t.to_state, t.prod_num)).collect() };
+                for j in 0..6 {
+                    let mut types = walk(&mut rng, &d);
+                    if j % 2 == 1 && !types.is_empty() { let p = rng.below(types.len()); types[p] = 5 + rng.below(6) as u16; }
+                    if let Some(p) = types.iter().position(|t| *t == 0) { types.truncate(p); }
+                    println!("{}", eval_case(&d, &types, 0));
+                }
+            }
+        }
+    }
     for _ in 0..a.n {
         let nterm = rng.range(1, 5);
         let prefix_free = !rng.chance(1, 5);
         let strs = random_strings(&mut rng, nterm, prefix_free);
         let d = trie(&strs);
+        // 1/2: as a trie; 1/4: equivalent states merged (edges to lower-numbered states); 1/4: states renumbered at random
+        let d = match rng.below(4) { 0 => merged(&d), 1 => renumbered(&mut rng, &merged(&d)), _ => d };
         // buffers: a lookahead string, a mutated one, or random
         for _ in 0..3 {
             let mut types: Vec<u16> = match rng.below(3) {
